@@ -43,6 +43,7 @@ import (
 	"bufio"
 	"bytes"
 	"io"
+	"math"
 	"unicode"
 	"unicode/utf8"
 )
@@ -178,6 +179,9 @@ func NewDecoder(r io.Reader) *Decoder {
 	d := &Decoder{
 		s: bufio.NewScanner(r),
 	}
+	// A token can be as long as a line of the input: do not fail with
+	// bufio.ErrTooLong on lines longer than bufio.MaxScanTokenSize.
+	d.s.Buffer(nil, math.MaxInt)
 	d.s.Split(d.scan)
 	return d
 }
